@@ -271,11 +271,25 @@ func (s *Solver) buildQuery(p *proc, pc []*Term, extra []*Term, getVals []*Term)
 var safeQuoteRe = &Regex{Pattern: "safe", SMT: `(re.* (re.union (re.range " " "!") (re.range "#" "[") (re.range "]" "~")))`}
 var quotedOutRe = &Regex{Pattern: "quoted", SMT: `(re.++ (str.to_re """") (re.* (re.range " " "~")) (str.to_re """"))`}
 
+var (
+	appAxMu   sync.Mutex
+	appAxioms = map[string]func(app *Term) []*Term{}
+)
+
+// RegisterAppAxioms installs the per-application contract of an uninterpreted
+// function symbol (instantiated for every application occurring in a query).
+func RegisterAppAxioms(name string, gen func(app *Term) []*Term) {
+	appAxMu.Lock()
+	appAxioms[name] = gen
+	appAxMu.Unlock()
+}
+
 // qAxioms instantiates the contract of the uninterpreted quoting function
 // Q (= fmt's %+q / strconv.QuoteToASCII) for every application in the query.
 func qAxioms(asserts []*Term) []*Term {
 	seen := map[string]*Term{}
 	blens := map[string]*Term{}
+	others := map[string]*Term{}
 	var walk func(t *Term)
 	walk = func(t *Term) {
 		if t.Op == "app:Q" {
@@ -283,6 +297,8 @@ func qAxioms(asserts []*Term) []*Term {
 		}
 		if t.Op == "app:FIblen" {
 			blens[t.Key()] = t
+		} else if strings.HasPrefix(t.Op, "app:") && t.Op != "app:Q" {
+			others[t.Key()] = t
 		}
 		for _, a := range t.Args {
 			walk(a)
@@ -292,6 +308,15 @@ func qAxioms(asserts []*Term) []*Term {
 		walk(a)
 	}
 	var out []*Term
+	for _, k := range sortedKeys(others) {
+		t := others[k]
+		appAxMu.Lock()
+		gen := appAxioms[t.Op[4:]]
+		appAxMu.Unlock()
+		if gen != nil {
+			out = append(out, gen(t)...)
+		}
+	}
 	for _, k := range sortedKeys(blens) {
 		b := blens[k]
 		arg := b.Args[0]
